@@ -757,7 +757,7 @@ def extra_c03_ast(prop, tier, seed):
     res = {'violations': [], 'bounded': [{'check': 'AST of the real parser mirrors the derivation of generated documents (rule order, kind, names, sockets, generic parameters, assignment operator, nesting of choices / groups / occurrences / member keys / operators)',
                                           'bound': '%s generated documents, 1-3 rules, nesting depth <= 3, fixed seeds' % n, 'documents': out.get('tried'), 'found': out.get('found')}]}
     if out.get('found'):
-        w = {'seed': out['witness']['seed']}
+        w = {'seed': out['witness']['seed'], 'layout': out['witness'].get('layout', 0)}
         res['violations'].append({
             'unit': 'U10b', 'label': 'ast:mirrors-the-derivation', 'fn': 'cddl_from_pest_str / convert_* (src/pest_bridge.rs)',
             'message': 'the AST differs from the derivation of a generated document, or the document is rejected', 'clause': [], 'engine': 'replay',
